@@ -168,12 +168,13 @@ theorem mcInv_flagEval (hRE : ExpReg RE) {fe : Frontend} (h : MCInv RE E U fe) (
   have hmodels : (flagEval asts fe).models = fe.models := by rw [hf]
   have hflags : ∀ isMax signed, optFlags isMax signed (flagEval asts fe) = optFlags isMax signed fe := by
     intro isMax signed; rw [hf]; rfl
-  refine ⟨by rw [hmodels]; exact h.valid, ?_, fun isMax signed => by rw [hflags, hmodels]; exact h.opt isMax signed⟩
-  intro e' he' hi v hv
+  refine ⟨by rw [hmodels]; exact h.valid, ?_, fun isMax signed => by rw [hflags, hmodels]; exact h.optW isMax signed⟩
+  intro e' he' hi
   rw [hmodels]
   rcases (hmem e'.id).mp hi with hold | ⟨e, hein, hid, hvars⟩
-  · exact h.evalExh e' he' hold v hv
-  · obtain ⟨a, ha, rfl⟩ := hv
+  · exact h.evalExhW e' he' hold
+  · refine Or.inr fun v hv => ?_
+    obtain ⟨a, ha, rfl⟩ := hv
     obtain ⟨_, hval⟩ := hRE.faithful e e' (hre e hein) he' hid
     obtain ⟨a', hta', hag⟩ := hc _ (hcomp (asts.map (·.val a)) ⟨a, ha, rfl⟩)
     obtain ⟨m, hm, hme⟩ := hag e hein (hre e hein) hvars
@@ -461,12 +462,13 @@ theorem mcInv_flagOpt (hRE : ExpReg RE) {fe : Frontend} (h : MCInv RE E U fe) (i
   obtain ⟨hf, hmem⟩ := flagOpt_spec isMax signed e.id fe
   have hmodels : (flagOpt isMax signed e.id fe).models = fe.models := by rw [hf]
   have hev : (flagOpt isMax signed e.id fe).evalExh = fe.evalExh := by rw [hf]
-  refine ⟨by rw [hmodels]; exact h.valid, by rw [hmodels, hev]; exact h.evalExh, ?_⟩
-  intro im sg e' he' hi v hv
+  refine ⟨by rw [hmodels]; exact h.valid, by rw [hmodels, hev]; exact h.evalExhW, ?_⟩
+  intro im sg e' he' hi
   rw [hmodels]
   rcases (hmem im sg e'.id).mp hi with hold | ⟨rfl, rfl, hid⟩
-  · exact h.opt im sg e' he' hold v hv
-  · obtain ⟨hbits, hval⟩ := hRE.faithful e' e he' he hid
+  · exact h.optW im sg e' he' hold
+  · refine Or.inr fun v hv => ?_
+    obtain ⟨hbits, hval⟩ := hRE.faithful e' e he' he hid
     obtain ⟨m, hm, hmv⟩ := hc
     refine ⟨m, hm, ?_⟩
     have hfe : Feasible U e v := by obtain ⟨a, ha, hva⟩ := hv; exact ⟨a, ha, by rw [← hval]; exact hva⟩
